@@ -13,6 +13,8 @@ CLAIMS = {
  "C19": ("proof", "Rocq model of what bin/any.rs prints per result on top of the pipeline model, with theorems on its logic (one item per result in order, errors do not abort; the exact form is the fraction in lowest terms with the slash iff the denominator is not one; space iff the unit has a numerator part); the decisive tie is the line-by-line comparison of the real binary's stdout with the model's rendering and with an independent rendering from the library's results.",
          "Trusted: Coq kernel + vm_compute; hand-written model; the real `any` binary built from /repo with a private on-disk database; codespan's diagnostic block is opaque apart from message, position and width."),
 
+ "C15": ("proof", "PARTIAL. Rocq theorems over a state-machine model of Db::open whose effect order and crash points are translated from src/db.rs on every run: from EVERY starting directory state that does not already pair current metadata with a foreign index (all combinations of meta.json absent / garbage / JSON with or without version and hash keys, current or other, and index directory missing / unopenable / empty / shipped / other) and after EVERY history of starts killed at any crash point, of any length, the next completed start answers from the shipped data and leaves current metadata; metadata never declares the index current unless the index is completely committed or unusable; commit precedes write_meta and remove_meta precedes deleting or recreating the index. Tied to the code by driving the real Db::open through every state x crash point x further starts and comparing with the model and with an in-memory database.",
+         "Trusted: Coq kernel + vm_compute; translator (effect order, crash-point positions); the hand-written rebuild decision; atomicity of each persistent effect (tantivy commit, remove_file, a torn meta.json = garbage); the correspondence with the crash hooks. Filesystem reordering and concurrent starts are outside the model."),
  "C17": ("proof", "Rocq theorems: the CBOR subset serde_cbor uses decodes back to the encoded value for every value (fuel = bytes + 1 always suffices); u32-digit vectors, big integers, rationals, i32 states, units, unit expressions and constants round-trip through the serde encodings of the model; derived-unit identifiers (translated from generated/ids.rs) are pairwise distinct and decode to the same unit; every shipped constant's value and unit round-trip through the bytes (by kernel computation over the translated data).",
          "Trusted: Coq kernel + vm_compute; translator (its CBOR reading of db/*.bin.gz is cross-checked against serde's); hand-written codec model validated byte for byte against serde_cbor::to_vec / from_slice and serde_json on all shipped values, random 1000-bit rationals and random compounds. JSON decoding is checked on the implementation only."),
  "C18": ("proof", "Rocq theorems over the evaluator model with an arbitrary fact database: same value with and without descriptions from any starting list; nothing recorded when off; with the switch evaluation only appends, in evaluation order, phrases for which the database returned a constant; the roots of a query list evaluated against one database have the values they have in isolation. By simulation between the two runs through every node kind and both loops.",
